@@ -119,6 +119,7 @@ type Compiler struct {
 	OnDemand      int
 	NestedInExpr  int
 	RefTags       []RefTag
+	wantLHS       int // values expected from the call that is the single right-hand side of the statement being compiled
 	stmtDepth     int
 	lastPos       token.Pos
 	declStack     []*Sym
